@@ -11,6 +11,22 @@ COMMON_NOTE = ("Trusted base: Coq 8.16.1 kernel + vm_compute (no native_compute,
                "modelled, not verified. ")
 
 CLAIMED = {
+ "C11": dict(
+  text="Axiom-free theorems over Z about a hand model of the pair enumeration of DipolarCoupling and of the image set of DipolarRSS: (a,b) is a key iff "
+       "a<=b, it joins an atom of one selection with an atom of the other, a<>b unless self-coupling, same element if isonuclear; keys are not repeated; the "
+       "set does not depend on which selection comes first; processing in blocks of any size >= 1 is processing the whole list (block-size independence then "
+       "follows from the per-vector exactness of the minimum-image search, theorem C03 minimum_periodic_exact incl. exclude_self); the RSS image set is "
+       "exactly the periodic images at 0 < r <= cutoff for atoms stored in any image (C03 box theorem). Over the reals: for every d and unit vector r the "
+       "tensor is symmetric, traceless, has r as eigenvector with 2d and every perpendicular vector with -d; rotational averaging gives the same form about "
+       "the axis with d scaled by (3cos^2-1)/2 and keeps the axial component. Tied to the code by correspondence (pair sets as sets, RSS image counts) and "
+       "by an oracle on integer-coordinate periodic structures: constants against -mu0 hbar gi gj/(8 pi^2 r^3) on the EXACT nearest-image distance "
+       "(self pairs: nearest copy), direction lower->higher index along that image, tensors, rotation axes, block sizes {1,2,7,1000}, swapped selections, "
+       "RSS against brute-force image enumeration.",
+  note="The numeric constant (scipy.constants, gamma table) and float arithmetic are compared with 1e-9 relative tolerance, not modelled. "
+       "get_pair_dipolar_couplings (2D correlation strengths) is not exercised. Two defects found by this check were repaired (24b81c8 integer rotation axis, "
+       "b88eb48 RSS image grid).",
+  technique="Coq proof (Z lists, no axioms; Reals ring/field) of hand models reusing the C03 lattice theorems + differential correspondence + exact-distance oracle",
+  design="§8 C11"),
  "C10": dict(
   text="Theorems about a hand model of the bookkeeping soprano owns around the NMR array properties, written over the sort REGENERATED from "
        "soprano/nmr/utils.py: the isotope precedence chain (list entry > dictionary entry > quadrupolar default when requested and tabulated > default) "
